@@ -58,7 +58,7 @@ type task struct {
 	spawn   int32 // site that spawned it
 	foreign bool  // not started through simrt.Go
 	wake    chan struct{}
-	quantum int64 // owned by the task while it runs, by the controller while it is parked
+	quantum int64 // owned by the task while it runs, by the controller while it is parked (accessed from norace code only)
 }
 
 type msgKind uint8
@@ -164,7 +164,10 @@ func Yield(site int32) {
 	s.yield(site)
 }
 
+//go:norace
 func (s *Sim) yield(site int32) {
+	raceDisable()
+	defer raceEnable()
 	gid := Goid()
 	if gid == s.ctlGoid {
 		return
@@ -187,11 +190,13 @@ func (s *Sim) yield(site int32) {
 	s.park(t, site)
 }
 
+//go:norace
 func (s *Sim) park(t *task, site int32) {
 	s.msgs <- msg{kind: mPark, t: t, site: site}
 	<-t.wake
 }
 
+//go:norace
 func (s *Sim) registerForeign(gid int64, site int32) *task {
 	t := &task{id: int(s.nextID.Add(1)), goid: gid, foreign: true, spawn: site, wake: make(chan struct{}, 1)}
 	t.name = "foreign@" + SiteName(site)
@@ -210,29 +215,42 @@ func Go(site int32, f func()) {
 	s.spawn(site, "", f)
 }
 
+//go:norace
 func (s *Sim) spawn(site int32, name string, f func()) *task {
 	s.yield(site)
+	raceDisable()
 	t := &task{id: int(s.nextID.Add(1)), spawn: site, wake: make(chan struct{}, 1), name: name}
 	if t.name == "" {
 		t.name = "go@" + SiteName(site)
 	}
 	s.msgs <- msg{kind: mSpawn, t: t, site: site}
-	go func() {
-		t.goid = Goid()
-		s.tasks.Store(t.goid, t)
-		defer func() {
-			if r := recover(); r != nil {
-				buf := make([]byte, 8192)
-				n := runtime.Stack(buf, false)
-				s.msgs <- msg{kind: mPanic, t: t, text: fmt.Sprintf("%v\n%s", r, buf[:n])}
-			}
-			s.tasks.Delete(t.goid)
-			s.msgs <- msg{kind: mExit, t: t}
-		}()
-		s.park(t, site&^7|KFirst)
-		f()
-	}()
+	raceEnable()
+	// the go statement itself stays visible to the race detector: it is the
+	// program's own fork edge (parent happens-before child)
+	go s.taskMain(t, site, f)
 	return t
+}
+
+//go:norace
+func (s *Sim) taskMain(t *task, site int32, f func()) {
+	raceDisable()
+	t.goid = Goid()
+	s.tasks.Store(t.goid, t)
+	defer func() {
+		r := recover()
+		raceDisable()
+		if r != nil {
+			buf := make([]byte, 8192)
+			n := runtime.Stack(buf, false)
+			s.msgs <- msg{kind: mPanic, t: t, text: fmt.Sprintf("%v\n%s", r, buf[:n])}
+		}
+		s.tasks.Delete(t.goid)
+		s.msgs <- msg{kind: mExit, t: t}
+		raceEnable()
+	}()
+	s.park(t, site&^7|KFirst)
+	raceEnable()
+	f()
 }
 
 // ---- controller side ------------------------------------------------------
@@ -245,8 +263,11 @@ func (s *Sim) mustCtl() {
 
 // Settle waits until every other goroutine of the bubble is durably blocked
 // and absorbs their messages.
+//go:norace
 func (s *Sim) Settle() {
 	s.mustCtl()
+	raceDisable()
+	defer raceEnable()
 	for {
 		synctest.Wait()
 		full := len(s.msgs) == cap(s.msgs)
@@ -342,7 +363,10 @@ func (s *Sim) StepTask(id int, quantum int) bool {
 	return true
 }
 
+//go:norace
 func (s *Sim) release(id int, q int) {
+	raceDisable()
+	defer raceEnable()
 	t := s.parked[id]
 	site := s.parkSite[id]
 	delete(s.parked, id)
@@ -411,10 +435,13 @@ func (s *Sim) OverBudget() bool { return s.Steps >= s.MaxSteps }
 
 // Advance moves the fake clock forward by d (timers that expire wake their
 // goroutines, which then stop at their next yield point).
+//go:norace
 func (s *Sim) Advance(d time.Duration) {
 	s.Settle()
+	raceDisable()
 	s.current.Store(nil)
 	time.Sleep(d)
+	raceEnable()
 	s.Settle()
 	if s.TraceOn && len(s.Trace) < 20000 {
 		s.Trace = append(s.Trace, fmt.Sprintf("advance %v", d))
